@@ -80,7 +80,7 @@ class MQTTTransport(Transport):
 
         try:
             await asyncio.gather(*tasks)
-        except TransportError:
+        except (TransportError, asyncio.CancelledError):
             # Don't leave a half set up connection (and its receive task) behind.
             await self._disconnect()
             raise
